@@ -1334,6 +1334,7 @@ MISS_PROPS = {
     "impl function without address": ["C05"], "unresolvable parameter type": ["C05", "C10"], "unresolvable return type": ["C05", "C10"], "extern value without address": ["C15"], "extern type without align": ["C02"],
     "defaultable without default": ["C08"], "default without defaultable": ["C08"], "two defaults": ["C08"],
     "derived vftable omits the last base slot": ["C06"],
+    "derived vftable ends inside the base's trailing padding": ["C06"],
     "derived vftable slot differs from the base's: name": ["C06"], "derived vftable slot differs from the base's: receiver": ["C06"],
     "derived vftable slot differs from the base's: cc": ["C06", "C16"], "derived vftable slot differs from the base's: ret": ["C06"],
     "derived vftable slot differs from the base's: arg_count": ["C06"], "derived vftable slot differs from the base's: arg_type": ["C06"],
